@@ -215,6 +215,24 @@ PROPS["C12"] = text_entry(
     "non-trivial = a width larger than the text is requested or a flag is set",
     lambda e: e["a"][2]["b"] or e["a"][3]["b"] or e["a"][4]["b"] or not e["a"][7].get("neg", False))
 
+def float_entry(rule, nontrivial, **kw):
+    d = {"bin": "float", "modes": {"quick": ["debug"], "thorough": ["debug", "release"]}, "prims": True,
+         "rule": rule, "nontrivial": nontrivial, "mc": {"quick": [], "thorough": []}}
+    d.update(kw)
+    return d
+
+
+PROPS["C14"] = float_entry(
+    "one case = (int_to_float, type, value) for f32 and f64, or (float_to_int, float bit pattern, target type); integers: for bit lengths {2,8,23..27,52..56,63..65,127..130,1023..1026,W-1,W,random} every rounding class "
+    "(kept mantissa all ones/even/odd/random x round bit x sticky zero/lowest/random), negatives, on all matrix types plus 1032-bit (u8x129) and 1088-bit (u64x17) types for the f64 infinity boundary; "
+    "floats: exponent fields {0,1,2,bias-3..bias+2,bias+7,bias+8,bias+W-2..bias+W+1,bias+p-1..bias+p+1,max-1,max,random} x mantissas {0,1,all ones,half,half+1,random} x both signs (subnormals, +-0, infinities, NaNs); "
+    "non-trivial = integer needs rounding (more than 24 significant bits), or float is non-finite, fractional below 1, or within one binade of the target's bounds",
+    lambda e: (e["op"] == "int_to_float" and abs(to_int(e["a"][0])) >= (1 << 24)) or e["op"] == "float_to_int")
+PROPS["C19"] = float_entry(
+    "one case = (from_prim, primitive type, value, target), (from_float, bit pattern, target) or (to_prim, type, value) with all 12 to_* methods, to_f32/to_f64 and all 14 AsPrimitive casts; primitive values: bounds of the source and MIN-1..MAX+1 of the target; "
+    "floats as for C14; non-trivial = the value lies within 1 of a bound of the target, or the result is None",
+    lambda e: any(o.get("k") == "none" for o in e["fo"].values()) or e["op"] != "from_prim")
+
 KNOWN_PREDICATES = {}
 
 
